@@ -38,7 +38,7 @@ PROPS["C01"] = {
                   "are skipped, counted as skipped:unspecified. Number formatting is assumed to be shortest decimal without exponent as in the docs' examples.",
     "technique": "property-based differential testing: type-directed program generator + reference interpreter oracle (rapid)",
     "tests": [
-        {"name": "TestProp", "quick": {"shards": 8, "checks": 6000}, "thorough": {"shards": 16, "checks": 60000}},
+        {"name": "TestProp", "quick": {"shards": 8, "checks": 9000}, "thorough": {"shards": 16, "checks": 60000}},
         {"name": "TestEquality", "quick": {"shards": 4, "checks": 3000}, "thorough": {"shards": 8, "checks": 30000}},
     ],
     "rule": "cases: generated well-typed programs (declarations, assignments, prints over expression trees of depth 1-5 with every operator on "
@@ -84,7 +84,7 @@ PROPS["C12"] = {
                   "Histories that end in the documented missing-key panic are compared up to the panic.",
     "technique": "model-based stateful property testing against an insertion-ordered dictionary model (rapid)",
     "tests": [
-        {"name": "TestProp", "quick": {"shards": 8, "checks": 2500}, "thorough": {"shards": 16, "checks": 25000}},
+        {"name": "TestProp", "quick": {"shards": 8, "checks": 4000}, "thorough": {"shards": 16, "checks": 25000}},
     ],
     "rule": "cases: histories over maps m1, m2 (alias of m1 in half the cases), m3 with keys {a,b,c,d,'x y',for}: literal (re)construction, "
             "m[k]=v, m.k=v, del (also of the key being visited), guarded and unguarded lookup, has, len, ==/!= against maps and literals, "
@@ -104,7 +104,7 @@ PROPS["C09"] = {
                   "Values stored into any-typed slots of existing containers are excluded (cyclic values crash the host, open finding).",
     "technique": "property-based differential testing over generated alias/update/observe sequences (rapid + reference interpreter)",
     "tests": [
-        {"name": "TestProp", "quick": {"shards": 8, "checks": 3000}, "thorough": {"shards": 16, "checks": 30000}},
+        {"name": "TestProp", "quick": {"shards": 8, "checks": 12000}, "thorough": {"shards": 16, "checks": 100000}},
     ],
     "rule": "cases: programs over variables of 13 types (num,string,bool,[]num,[][]num,[]bool,[]string,{}num,{}bool,{}string,{}[]num,any,[]any); "
             "alias creation by :=, typed declaration + =, =, array/map literal containing a variable, element/field store, element read, "
@@ -125,7 +125,7 @@ PROPS["C10"] = {
                   "documented panic. Programs whose reference run exceeds its step or size budget are skipped (counted as skipped:fuel).",
     "technique": "property-based differential testing of generated control-flow trace programs against a reference interpreter (rapid)",
     "tests": [
-        {"name": "TestProp", "quick": {"shards": 8, "checks": 3000}, "thorough": {"shards": 16, "checks": 30000}},
+        {"name": "TestProp", "quick": {"shards": 8, "checks": 6000}, "thorough": {"shards": 16, "checks": 30000}},
     ],
     "rule": "cases: programs with block depth 2-4; declarations may shadow a variable of an enclosing block (possibly with another type, "
             "possibly after the outer one was used in the same block); break under if inside loops; return from nested blocks; numeric "
@@ -172,7 +172,7 @@ PROPS["C15"] = {
                   "the platforms do. Delivery stops at the first handler that ends in a run-time panic.",
     "technique": "model-based stateful property testing + differential twin (handlers rewritten as procedures) (rapid)",
     "tests": [
-        {"name": "TestProp", "quick": {"shards": 8, "checks": 3000}, "thorough": {"shards": 16, "checks": 30000}},
+        {"name": "TestProp", "quick": {"shards": 8, "checks": 6000}, "thorough": {"shards": 16, "checks": 30000}},
     ],
     "rule": "cases: (program, event history). Handler signatures: all parameters named / some replaced by _ / none; handler bodies read and "
             "update globals, declare locals, call functions, return early. Non-trivial = at least two different events delivered and "
@@ -334,7 +334,7 @@ PROPS["C13"] = {
                   "number spellings like 1e5/0x10/inf in str2num (only 'err => 0' is asserted), examples involving cls or rand.",
     "technique": "property-based testing of built-ins against documentation-derived oracles and algebraic laws + enumeration of documented examples (rapid)",
     "tests": [
-        {"name": "TestProp", "quick": {"shards": 8, "checks": 10000}, "thorough": {"shards": 16, "checks": 60000}},
+        {"name": "TestProp", "quick": {"shards": 8, "checks": 20000}, "thorough": {"shards": 16, "checks": 60000}},
         {"name": "TestDocExamples", "rapid": False, "quick": {"shards": 1}, "thorough": {"shards": 1}},
     ],
     "rule": "cases: (built-in, argument class tuple) probes. Every probe is non-trivial (it asserts a documented result); distinct by "
@@ -384,7 +384,7 @@ PROPS["C17"] = {
                   "variable are excluded while finding F37 (C16) is open.",
     "technique": "property-based testing with an independent bytecode verifier (abstract stack-height interpretation) + model-based symbol table state machine (rapid)",
     "tests": [
-        {"name": "TestProp", "quick": {"shards": 8, "checks": 2500}, "thorough": {"shards": 16, "checks": 30000}},
+        {"name": "TestProp", "quick": {"shards": 8, "checks": 5000}, "thorough": {"shards": 16, "checks": 30000}},
         {"name": "TestLarge", "rapid": False, "quick": {"shards": 1}, "thorough": {"shards": 1}},
         {"name": "TestSymbolTable", "quick": {"shards": 4, "checks": 5000}, "thorough": {"shards": 8, "checks": 50000}},
     ],
@@ -410,7 +410,7 @@ PROPS["C19"] = {
                   "findings (F42-F46) do not mask other differences in the same history.",
     "technique": "model-based property testing: pen-state model vs SVG parsed back and flattened (rapid, encoding/xml strict)",
     "tests": [
-        {"name": "TestProp", "quick": {"shards": 8, "checks": 2000}, "thorough": {"shards": 16, "checks": 20000}},
+        {"name": "TestProp", "quick": {"shards": 8, "checks": 4000}, "thorough": {"shards": 16, "checks": 20000}},
         {"name": "TestGridnDegenerate", "rapid": False, "quick": {"shards": 1}, "thorough": {"shards": 1}},
     ],
     "rule": "cases: histories of graphics calls. Non-trivial = at least two style changes and at least two shapes; distinct by the "
